@@ -1,17 +1,20 @@
 package checks
 
 import (
+	"encoding/json"
 	"fmt"
 	"reflect"
 	"runtime"
 	"sort"
 	"strings"
 	"sync"
+	"sync/atomic"
 	"time"
 
 	"github.com/enbility/spine-go/api"
 	"github.com/enbility/spine-go/model"
 	"github.com/enbility/spine-go/spine"
+	"github.com/enbility/spine-go/util"
 
 	"verifharness/rig"
 )
@@ -35,6 +38,21 @@ import (
 // expiry / expiry-race (c10Expiry): two peers, approval timeout 200 us - 2 ms, the teardown is aimed at
 // the moment the victim's timers expire (optionally held at the hook inside RemoveRemoteDevice), so the
 // race between a firing timer and the cleanup is exercised deliberately.
+//
+// window / window-race (c10Window): the teardown of one peer is held INSIDE the registry cleanup (in the
+// synchronous core-level delivery of one of the victim's subscription/binding removal events) while two
+// other peers send subscribe/unsubscribe resp. bind/unbind requests for their own pairs on their own
+// goroutines. Whatever the stack does with those requests (serve them at once or make them wait), every
+// request that was acknowledged with a success result must be reflected in the registries afterwards: the
+// teardown and the other peers' requests concern different pairs, so they commute and the final state is
+// unique.
+//
+// reconnect / reconnect-race (c10Reconnect): a peer with writes pending approval under a short timeout is
+// disconnected and reconnects with the same SKI and the same message counters before the timeout has
+// passed; the re-sent writes are pending again (long timeout). Whatever was armed for the OLD connection
+// must neither write to the old connection nor touch the pending approvals of the new one. A quarter of
+// the cases instead removes the connection while an approval of the application is between the lookup of
+// the pending write and its execution (hook ApproveOrDenyWrite.afterLookup).
 
 const c10Timeout = 50 * time.Millisecond
 const c10Horizon = 5 * c10Timeout
@@ -52,12 +70,24 @@ func init() {
 		"distinct = distinct (teardown kind, concurrent, #entries removed, #flags removed, #pending writes of the removed peer, #pending writes of others). " +
 		"expiry parts: case = 2 identically numbered peers, each bound to one approval feature, 1-3 writes of the victim and 0-2 of the other peer pending under a very short approval timeout (200 us - 2 ms); the disconnect (half of them held at the hook " +
 		"RemoveRemoteDevice.beforeCleanup) or the entity-removal notification is aimed at the expiry of those timers (offset within +-150 us); non-trivial if the expiry of at least one timer of the victim fell between start and return of the teardown call; " +
-		"distinct = distinct (kind, timeout, held at hook, #writes, how many of the victim's writes were answered before the teardown returned)."
+		"distinct = distinct (kind, timeout, held at hook, #writes, how many of the victim's writes were answered before the teardown returned). " +
+		"window parts: case = 3 identically numbered peers; the victim holds 1-3 subscriptions and 1-2 bindings that the teardown (disconnect | remove [1] | remove [1,1] | remove [2]) removes, the other two peers hold 2-4 / 0-2 subscriptions and 1-2 / 0-1 bindings with overlapping numbers; " +
+		"a core-level event handler of the harness (called synchronously by the stack inside the cleanup of the registry) reacts to a randomly chosen removal event of the victim's subscriptions by releasing a goroutine on which the second peer sends 1-3 subscribe/unsubscribe requests for its own pairs, " +
+		"and to a randomly chosen removal event of the victim's bindings by releasing a goroutine on which the third peer sends 1-2 bind/unbind requests for its own pairs; the handler keeps the teardown inside the cleanup for 150-600 us (x4 on the race binary) after the request was handed to the stack. " +
+		"At quiescence every acknowledged request must be reflected: registries == reference (teardown and requests commute), HasLocalFeatureRemoteBinding, a write per binding of the universe (accepted iff bound), a data change per server feature (notifies exactly the subscribers). " +
+		"One fifth of the request sequences is instead released 0-200 us BEFORE the teardown call (unaimed overlap, for breaks whose window opens in the other peer's request). " +
+		"non-trivial if at least one of the two requests was handed to the stack while the teardown was held inside the cleanup (a window forced); distinct = distinct (teardown, index of the releasing events, request kinds). " +
+		"reconnect parts: case = 2 identically numbered peers, X bound to 1-2 approval features with 1-2 writes pending (timeout 25|50 ms, x2 on the race binary), the other peer bound to the rest, subscribed to all three and in half of the cases with a pending write that carries the same counter; " +
+		"X's connection is removed and set up again with the same SKI, X repeats announcement, bindings and writes with the SAME message counters (now under a timeout of 30 min); observed until 5 x the short timeout after the removal: nothing on the old connection, the new writes still pending and unanswered, " +
+		"then the application approves (3/4) or denies (1/4) them: exactly one matching result on the new connection, one data change event and one notification per approved write. non-trivial if the re-sent writes were pending before the short timeout had passed since the first writes. " +
+		"One quarter of the cases (approve-at-removal, always non-trivial): the application's approval of a pending write is held at the hook ApproveOrDenyWrite.afterLookup while the connection is removed: the write must not be carried out (no data change event, no notification, nothing on the removed connection)."
 	assume := []string{
 		"absence of datagrams on the removed connection is observed until all pending approval timers of the other peers have fired, the process is back at its baseline goroutine count and at least 5 x the approval timeout (250 ms) has passed since the removal call returned; the verdict is on the tap content (logical sequence numbers), the clock only bounds the observation",
 		"pending approvals of surviving peers are judged by their outcome (every such write receives exactly one result, the timeout error), because their timers legitimately fire during the case; state read immediately after the teardown is only judged where timers cannot change the verdict",
 		"concurrent messages of the other peer are reads, subscribes, unsubscribes and binds of free features: nothing that fans out to the removed peer, so an in-flight notification racing with the removal is not generated",
 		"events are observed at the core level (synchronous)",
+		"window parts: the pause of the harness's event handler only places the other peers' requests; its expiry is never judged, and no verdict depends on whether a request was served during or after the cleanup. All requests concern pairs the teardown does not touch and server features the victim does not hold, so each of them must be acknowledged in every order",
+		"reconnect parts: the clock only bounds the observation (5 x the short approval timeout after the removal returned, and until the other peer's timer has fired); the 30 min timeout of the re-sent writes stands for 'does not expire within the case'",
 	}
 	rig.Register(&rig.Check{
 		ID:          "C10",
@@ -69,6 +99,10 @@ func init() {
 			{Name: "teardown-race", Race: true, Cases: func(t rig.Tier) int { return map[rig.Tier]int{rig.Quick: 48, rig.Thorough: 600}[t] }, Run: c10Case, Procs: 4, Workers: 16, Quiet: 120 * time.Second},
 			{Name: "expiry", Cases: func(t rig.Tier) int { return map[rig.Tier]int{rig.Quick: 600, rig.Thorough: 8000}[t] }, Run: c10Expiry, Procs: 4, Workers: 16, Quiet: 90 * time.Second},
 			{Name: "expiry-race", Race: true, Cases: func(t rig.Tier) int { return map[rig.Tier]int{rig.Quick: 160, rig.Thorough: 1600}[t] }, Run: c10Expiry, Procs: 4, Workers: 16, Quiet: 120 * time.Second},
+			{Name: "window", Cases: func(t rig.Tier) int { return map[rig.Tier]int{rig.Quick: 800, rig.Thorough: 8000}[t] }, Run: c10Window, Procs: 4, Workers: 16, Quiet: 90 * time.Second},
+			{Name: "window-race", Race: true, Cases: func(t rig.Tier) int { return map[rig.Tier]int{rig.Quick: 128, rig.Thorough: 1280}[t] }, Run: c10Window, Procs: 4, Workers: 16, Quiet: 120 * time.Second},
+			{Name: "reconnect", Cases: func(t rig.Tier) int { return map[rig.Tier]int{rig.Quick: 192, rig.Thorough: 2400}[t] }, Run: c10Reconnect, Procs: 2, Workers: 32, Quiet: 90 * time.Second},
+			{Name: "reconnect-race", Race: true, Cases: func(t rig.Tier) int { return map[rig.Tier]int{rig.Quick: 48, rig.Thorough: 480}[t] }, Run: c10Reconnect, Procs: 4, Workers: 16, Quiet: 120 * time.Second},
 		},
 	})
 }
@@ -1283,4 +1317,1012 @@ func c10Expiry(c *rig.Ctx) {
 	}
 	c.Sample(map[string]any{"case": desc, "victim_writes_answered_before_return": answeredBefore, "expiry_inside_teardown_call": overlap,
 		"teardown_call_took": tReturn.Sub(tStart).String(), "horizon": horizon.String()})
+}
+
+// ---------------------------------------------------------------------------------------------------
+// window: requests of other peers placed inside the registry cleanup of a teardown
+
+// c10Actor is another peer whose requests are released by the trigger while the teardown of the victim
+// is inside the cleanup of one registry.
+type c10Actor struct {
+	peer    int
+	mgr     string        // "sub": subscribe/unsubscribe requests | "bind": bind/unbind requests
+	at      int32         // the victim's at-th removal event of that registry releases the actor; 0 = released just before the teardown call (unaimed overlap)
+	lead    time.Duration // at == 0: how long before the teardown call
+	hold    time.Duration
+	ops     []*c10WinOp
+	seen    atomic.Int32
+	release chan struct{}
+	fired   atomic.Bool // the trigger released the actor
+	entered atomic.Bool // the actor's goroutine was about to hand its first request to the stack
+	inside  atomic.Bool // ... and that was observed before the trigger let the teardown continue
+}
+
+type c10WinOp struct {
+	kind string // subscribe | unsubscribe | bind | unbind
+	ent  []uint
+	srv  int
+	raw  []byte
+	mc   model.MsgCounterType
+}
+
+// c10Trigger is a core-level event handler: Events.Publish calls it synchronously on the goroutine that
+// runs the teardown, i.e. inside the cleanup of the registry that publishes the removal event.
+type c10Trigger struct {
+	ski    string
+	actors map[api.EventType]*c10Actor
+}
+
+func (t *c10Trigger) HandleEvent(p api.EventPayload) {
+	if p.Ski != t.ski || p.ChangeType != api.ElementChangeRemove {
+		return
+	}
+	a := t.actors[p.EventType]
+	if a == nil || a.seen.Add(1) != a.at {
+		return
+	}
+	a.fired.Store(true)
+	close(a.release)
+	// Bounded wait, never judged: until the other peer's goroutine is about to enter the stack, then a
+	// short pause that lets its request reach the registry. The request itself cannot finish before this
+	// handler returns (if the registry lets it in, it stops at the publication of its own event, which is
+	// serialised with the publication this handler is part of), so there is nothing more to wait for.
+	deadline := time.Now().Add(50 * time.Millisecond)
+	for !a.entered.Load() && time.Now().Before(deadline) {
+		runtime.Gosched()
+	}
+	if a.entered.Load() {
+		time.Sleep(a.hold)
+		a.inside.Store(true)
+	}
+}
+
+func c10Window(c *rig.Ctx) {
+	r := c.Rand
+	w := rig.NewWorld(c.Tag())
+	defer w.Close()
+
+	// ---- local device: six server features, writes need a binding but no approval
+	e := w.AddEntity(model.EntityTypeTypeCEM, []uint{1}, 4*time.Second)
+	var srv []api.FeatureLocalInterface
+	var wfn []rig.FnInfo
+	for _, t := range c10SrvTypes {
+		f := e.GetOrAddFeature(t, model.RoleTypeServer)
+		fns := c06FnsOf(t)
+		for _, fn := range fns {
+			f.AddFunctionType(fn.Fn, true, true)
+		}
+		wfn = append(wfn, fns[len(fns)-1])
+		srv = append(srv, f)
+	}
+	var tree []rig.FS
+	tree = append(tree, rig.NMFS)
+	for _, ea := range c10Ents {
+		for i, t := range c10SrvTypes {
+			tree = append(tree, rig.FS{Ent: ea, Id: uint(i + 1), Typ: t, Role: model.RoleTypeClient})
+		}
+	}
+	var peers []*rig.Peer
+	for i := 0; i < 3; i++ {
+		p := w.AddPeer(i)
+		p.Ctr = uint64(i+1) * 100000
+		p.Announce(tree)
+		p.Tap.Take()
+		peers = append(peers, p)
+	}
+
+	var trace []string
+	fail := func(sig, format string, a ...any) {
+		c.Violate(sig, "%s\n history (last is the failing step):\n   %s", fmt.Sprintf(format, a...), strings.Join(trace, "\n   "))
+		c.Witness(map[string]any{"history": trace})
+	}
+	type entry struct {
+		kind string // sub | bind
+		peer int
+		ent  []uint
+		srv  int
+	}
+	caddr := func(en entry) *model.FeatureAddressType { return rig.FA(peers[en.peer].Addr, en.ent, uint(en.srv+1)) }
+	key := func(en entry) string {
+		return fmt.Sprintf("%-4s peer%d client=%s server=%s", en.kind, en.peer, caddr(en).String(), srv[en.srv].Address().String())
+	}
+	ref := map[string]entry{}      // what the registries must contain
+	universe := map[string]entry{} // every pair that was ever granted
+	setup := func(en entry) bool {
+		p := peers[en.peer]
+		var mc model.MsgCounterType
+		if en.kind == "sub" {
+			mc = p.Subscribe(caddr(en), srv[en.srv].Address(), c10SrvTypes[en.srv])
+		} else {
+			mc = p.Bind(caddr(en), srv[en.srv].Address(), c10SrvTypes[en.srv])
+		}
+		trace = append(trace, fmt.Sprintf("peer%d %s %s/%d -> local server %d", en.peer, en.kind, c06Key(en.ent), en.srv+1, en.srv))
+		if res := rig.Classify(p.Tap.Take(), mc); res.Success != 1 || res.Errors != 0 {
+			fail("window/setup/"+en.kind+"-not-granted", "%s", res)
+			return false
+		}
+		ref[key(en)], universe[key(en)] = en, en
+		return true
+	}
+
+	// ---- roles and teardown
+	x := r.Intn(3)
+	others := []int{(x + 1) % 3, (x + 2) % 3}
+	if r.Intn(2) == 0 {
+		others[0], others[1] = others[1], others[0]
+	}
+	sp, bp := others[0], others[1] // the peer that sends subscription requests / binding requests during the teardown
+	kind := []string{"disconnect", "disconnect", "remove[1]", "remove[1,1]", "remove[2]"}[r.Intn(5)]
+	var remEnt []uint
+	switch kind {
+	case "remove[1]":
+		remEnt = []uint{1}
+	case "remove[1,1]":
+		remEnt = []uint{1, 1}
+	case "remove[2]":
+		remEnt = []uint{2}
+	}
+	randEnt := func() []uint { return c10Ents[r.Intn(len(c10Ents))] }
+	vEnt := func(must bool) []uint { // entity of an entry of the victim
+		if must && remEnt != nil {
+			return remEnt
+		}
+		return randEnt()
+	}
+
+	// ---- setup history: the victim holds 1-3 subscriptions and 1-2 bindings that the teardown removes (plus
+	// some that an entity removal leaves alone); the other two peers hold subscriptions and bindings with
+	// overlapping numbers
+	var ops []entry
+	dup := map[string]bool{}
+	add := func(en entry) bool {
+		if dup[key(en)] {
+			return false
+		}
+		dup[key(en)] = true
+		ops = append(ops, en)
+		return true
+	}
+	perm := r.Perm(len(srv))
+	nVB := 1 + r.Intn(2)
+	for i := 0; i < nVB; i++ {
+		add(entry{"bind", x, vEnt(i == 0 || r.Intn(2) == 0), perm[i]})
+	}
+	nBB := 1 + r.Intn(2) // bindings the binding actor holds before the teardown
+	for i := 0; i < nBB; i++ {
+		add(entry{"bind", bp, randEnt(), perm[nVB+i]})
+	}
+	next := nVB + nBB
+	if r.Intn(2) == 0 {
+		add(entry{"bind", sp, randEnt(), perm[next]})
+		next++
+	}
+	free := append([]int(nil), perm[next:]...) // server features nobody binds in the setup (at least one)
+	for n, i := 1+r.Intn(3), 0; i < n; i++ {
+		add(entry{"sub", x, vEnt(i == 0 || r.Intn(2) == 0), r.Intn(len(srv))})
+	}
+	for n := 2 + r.Intn(3); n > 0; n-- {
+		add(entry{"sub", sp, randEnt(), r.Intn(len(srv))})
+	}
+	for n := r.Intn(3); n > 0; n-- {
+		add(entry{"sub", bp, randEnt(), r.Intn(len(srv))})
+	}
+	r.Shuffle(len(ops), func(i, j int) { ops[i], ops[j] = ops[j], ops[i] })
+	for _, en := range ops {
+		if !setup(en) {
+			return
+		}
+	}
+
+	// ---- what the teardown removes
+	hit := func(en entry) bool { return en.peer == x && (remEnt == nil || c06Key(en.ent) == c06Key(remEnt)) }
+	nRem := map[string]int32{}
+	twins := 0
+	for k, en := range ref {
+		if hit(en) {
+			nRem[en.kind]++
+			delete(ref, k)
+		}
+	}
+	for _, en := range ref {
+		if en.peer != x && (remEnt == nil || c06Key(en.ent) == c06Key(remEnt)) {
+			twins++
+		}
+	}
+
+	// ---- the requests of the other two peers, prepared as bytes so that the released goroutine enters the stack at once
+	mk := func(pi int, kindOp string, ent []uint, s int) *c10WinOp {
+		p := peers[pi]
+		ca, sa := rig.FA(p.Addr, ent, uint(s+1)), srv[s].Address()
+		var cmd model.CmdType
+		switch kindOp {
+		case "subscribe":
+			cmd = model.CmdType{NodeManagementSubscriptionRequestCall: spine.NewNodeManagementSubscriptionRequestCallType(ca, sa, c10SrvTypes[s])}
+		case "unsubscribe":
+			cmd = model.CmdType{NodeManagementSubscriptionDeleteCall: spine.NewNodeManagementSubscriptionDeleteCallType(ca, sa)}
+		case "bind":
+			cmd = model.CmdType{NodeManagementBindingRequestCall: spine.NewNodeManagementBindingRequestCallType(ca, sa, c10SrvTypes[s])}
+		case "unbind":
+			cmd = model.CmdType{NodeManagementBindingDeleteCall: spine.NewNodeManagementBindingDeleteCallType(ca, sa)}
+		}
+		mc := p.NextCounter()
+		b, err := json.Marshal(rig.Datagram(model.CmdClassifierTypeCall, p.NM(), rig.LNM, mc, true, nil, cmd))
+		if err != nil {
+			panic("harness: cannot marshal datagram: " + err.Error())
+		}
+		return &c10WinOp{kind: kindOp, ent: ent, srv: s, raw: b, mc: mc}
+	}
+	holdOf := func() time.Duration {
+		d := time.Duration(150+r.Intn(450)) * time.Microsecond
+		if c.Race {
+			d *= 4
+		}
+		return d
+	}
+	sa := &c10Actor{peer: sp, mgr: "sub", at: 1 + r.Int31n(nRem["sub"]), hold: holdOf(), release: make(chan struct{})}
+	ba := &c10Actor{peer: bp, mgr: "bind", at: 1 + r.Int31n(nRem["bind"]), hold: holdOf(), release: make(chan struct{})}
+	for _, a := range []*c10Actor{sa, ba} {
+		if r.Intn(5) == 0 { // the requests are already on their way when the teardown starts
+			a.at, a.lead = 0, time.Duration(r.Intn(200))*time.Microsecond
+		}
+	}
+	{
+		have := map[string]entry{} // subscriptions of sp as they develop
+		for k, en := range ref {
+			if en.kind == "sub" && en.peer == sp {
+				have[k] = en
+			}
+		}
+		for n := 1 + r.Intn(3); n > 0; n-- {
+			var ks []string
+			for k := range have {
+				ks = append(ks, k)
+			}
+			sort.Strings(ks)
+			if len(ks) > 0 && r.Intn(2) == 0 {
+				en := have[ks[r.Intn(len(ks))]]
+				delete(have, key(en))
+				sa.ops = append(sa.ops, mk(sp, "unsubscribe", en.ent, en.srv))
+				continue
+			}
+			en := entry{"sub", sp, randEnt(), r.Intn(len(srv))}
+			if r.Intn(2) == 0 { // the very pair numbers the victim loses
+				for _, o := range ops {
+					if o.kind == "sub" && hit(o) {
+						en.ent, en.srv = o.ent, o.srv
+						break
+					}
+				}
+			}
+			if _, dupl := have[key(en)]; dupl {
+				continue
+			}
+			if _, was := universe[key(en)]; was {
+				continue // never re-subscribe a pair that is being unsubscribed in the same window
+			}
+			have[key(en)] = en
+			universe[key(en)] = en
+			sa.ops = append(sa.ops, mk(sp, "subscribe", en.ent, en.srv))
+		}
+		if len(sa.ops) == 0 {
+			en := entry{"sub", sp, randEnt(), r.Intn(len(srv))}
+			for {
+				if _, was := universe[key(en)]; !was {
+					break
+				}
+				en = entry{"sub", sp, randEnt(), r.Intn(len(srv))}
+			}
+			universe[key(en)] = en
+			sa.ops = append(sa.ops, mk(sp, "subscribe", en.ent, en.srv))
+		}
+	}
+	{
+		var held []entry
+		for _, o := range ops {
+			if o.kind == "bind" && o.peer == bp {
+				held = append(held, o)
+			}
+		}
+		fr := append([]int(nil), free...)
+		for n := 1 + r.Intn(2); n > 0; n-- {
+			if (len(held) > 0 && r.Intn(2) == 0) || len(fr) == 0 {
+				if len(held) == 0 {
+					break
+				}
+				i := r.Intn(len(held))
+				en := held[i]
+				held = append(held[:i], held[i+1:]...)
+				ba.ops = append(ba.ops, mk(bp, "unbind", en.ent, en.srv))
+				continue
+			}
+			i := r.Intn(len(fr))
+			en := entry{"bind", bp, randEnt(), fr[i]}
+			fr = append(fr[:i], fr[i+1:]...)
+			universe[key(en)] = en
+			ba.ops = append(ba.ops, mk(bp, "bind", en.ent, en.srv))
+		}
+	}
+	for pi := range peers {
+		peers[pi].Tap.Take()
+	}
+	w.Core.Take()
+	baseline := runtime.NumGoroutine()
+
+	// ---- teardown with the trigger installed
+	trig := &c10Trigger{ski: peers[x].Ski, actors: map[api.EventType]*c10Actor{api.EventTypeSubscriptionChange: sa, api.EventTypeBindingChange: ba}}
+	_ = spine.VerifSubscribeCore(trig)
+	defer func() { _ = spine.VerifUnsubscribeCore(trig) }()
+	stop := make(chan struct{})
+	var wg sync.WaitGroup
+	for _, a := range []*c10Actor{sa, ba} {
+		wg.Add(1)
+		go func(a *c10Actor) {
+			defer wg.Done()
+			select {
+			case <-a.release:
+			case <-stop: // the teardown has returned
+				if !a.fired.Load() {
+					return // never released (judged below)
+				}
+				// released, but this goroutine was not scheduled before the teardown returned: the
+				// requests are sent all the same (both channels are closed, select picks either)
+			}
+			a.entered.Store(true)
+			for _, o := range a.ops {
+				peers[a.peer].Raw(o.raw)
+			}
+		}(a)
+	}
+	trace = append(trace, fmt.Sprintf("TEARDOWN peer%d %s; at its subscription removal event #%d peer%d sends %s, at its binding removal event #%d peer%d sends %s (#0 = released just before the teardown call)",
+		x, kind, sa.at, sp, c10OpList(sa.ops), ba.at, bp, c10OpList(ba.ops)))
+	var seqReturn int64
+	notify := peers[x].Discovery(nil, nil, [][]uint{remEnt})
+	okT, panicked := rig.Guard(30*time.Second, func() {
+		var lead time.Duration
+		for _, a := range []*c10Actor{sa, ba} {
+			if a.at == 0 {
+				a.fired.Store(true)
+				close(a.release)
+				if a.lead > lead {
+					lead = a.lead
+				}
+			}
+		}
+		for t := time.Now(); lead > 0 && time.Since(t) < lead; {
+			runtime.Gosched()
+		}
+		if kind == "disconnect" {
+			w.Local.RemoveRemoteDeviceConnection(peers[x].Ski)
+		} else {
+			peers[x].NotifyDiscovery(true, notify)
+		}
+		seqReturn = rig.Seq()
+	})
+	close(stop)
+	if panicked != "" {
+		fail("window/"+kind+"/panic", "%s", panicked)
+		return
+	}
+	if !okT {
+		c.Inconclusive("teardown did not return within 30s")
+		return
+	}
+	if !waitWG(&wg, 30*time.Second) {
+		c.Inconclusive("requests of the other peers did not return within 30s")
+		return
+	}
+	_ = spine.VerifUnsubscribeCore(trig)
+	if !rig.WaitQuiet(baseline, 10*time.Second) {
+		c.Inconclusive("goroutines did not finish within the watchdog")
+		return
+	}
+	for _, p := range peers {
+		if p.PanicCount() > 0 {
+			fail("window/"+kind+"/panic", "panic while handling a message: %v", p.Panics)
+			return
+		}
+	}
+	outs := make([][]rig.Out, 3)
+	ds := make([][]model.DatagramType, 3)
+	for pi, p := range peers {
+		outs[pi] = p.Tap.TakeOut()
+		for _, o := range outs[pi] {
+			ds[pi] = append(ds[pi], o.D)
+		}
+	}
+
+	// ---- (1) a removal event was published for each entry (the trigger counts them), so both actors ran
+	for _, a := range []*c10Actor{sa, ba} {
+		c.Events(1)
+		if !a.fired.Load() {
+			fail("window/"+kind+"/removal-event-missing", "peer%d held %d %s entries that the teardown removes, but only %d removal events for them were published", x, nRem[a.mgr], a.mgr, a.seen.Load())
+			return
+		}
+		if n := a.seen.Load(); n != nRem[a.mgr] {
+			fail("window/"+kind+"/removal-events-differ-from-entries", "peer%d held %d %s entries that the teardown removes, %d removal events for them were published", x, nRem[a.mgr], a.mgr, n)
+		}
+	}
+
+	// ---- (2) every request of the other peers is acknowledged (all of them are legitimate whatever the order)
+	granted := map[string]string{} // key -> op kind that was acknowledged
+	for _, a := range []*c10Actor{sa, ba} {
+		for i, o := range a.ops {
+			en := entry{map[string]string{"subscribe": "sub", "unsubscribe": "sub", "bind": "bind", "unbind": "bind"}[o.kind], a.peer, o.ent, o.srv}
+			res := rig.Classify(ds[a.peer], o.mc)
+			c.Events(1)
+			trace = append(trace, fmt.Sprintf("  (during the teardown, request %d) peer%d %s %s/%d -> local server %d: %s", i+1, a.peer, o.kind, c06Key(o.ent), o.srv+1, o.srv, res))
+			if res.Success != 1 || res.Errors != 0 || len(res.All) != 1 {
+				fail("window/"+kind+"/"+o.kind+"-request-of-other-peer-not-served", "peer%d %s %s/%d -> local server %d during the teardown of peer%d: %s", a.peer, o.kind, c06Key(o.ent), o.srv+1, o.srv, x, res)
+				return
+			}
+			granted[key(en)] = o.kind
+			if o.kind == "subscribe" || o.kind == "bind" {
+				ref[key(en)] = en
+			} else {
+				delete(ref, key(en))
+			}
+		}
+	}
+
+	// ---- (3) registries == reference
+	got := map[string]int{}
+	for i, p := range peers {
+		for _, s := range w.Local.SubscriptionManager().Subscriptions(p.RD) {
+			got[fmt.Sprintf("%-4s peer%d client=%s server=%s", "sub", i, s.ClientFeature.Address().String(), s.ServerFeature.Address().String())]++
+		}
+		for _, b := range w.Local.BindingManager().Bindings(p.RD) {
+			got[fmt.Sprintf("%-4s peer%d client=%s server=%s", "bind", i, b.ClientFeature.Address().String(), b.ServerFeature.Address().String())]++
+		}
+	}
+	c.Events(int64(len(got) + len(ref)))
+	bad := false
+	var keys []string
+	for k := range universe {
+		keys = append(keys, k)
+	}
+	for k := range got {
+		if _, ok := universe[k]; !ok {
+			keys = append(keys, k)
+		}
+	}
+	sort.Strings(keys)
+	for _, k := range keys {
+		en, known := universe[k]
+		_, want := ref[k]
+		n := got[k]
+		switch {
+		case want && n == 1, !want && n == 0:
+			continue
+		case want && n == 0 && granted[k] != "":
+			fail("window/"+kind+"/"+en.kind+"-granted-to-other-peer-during-teardown-lost", "the %s request was acknowledged with a success result while peer%d was torn down, but the registry has no such entry: %s", granted[k], x, k)
+		case want && n == 0:
+			who := "other-peer"
+			if en.peer == x {
+				who = "other-entity-of-that-peer"
+			}
+			fail("window/"+kind+"/"+en.kind+"-entry-of-"+who+"-lost", "registry entry expected but not found: %s", k)
+		case !want && granted[k] != "":
+			fail("window/"+kind+"/"+en.kind+"-deleted-by-other-peer-during-teardown-resurrected", "the %s request was acknowledged with a success result while peer%d was torn down, but the registry holds the entry (%d times): %s", granted[k], x, n, k)
+		case !want && known && hit(en):
+			fail("window/"+kind+"/"+en.kind+"-entry-survives", "registry entry of the removed device/entity is still present %d times: %s", n, k)
+		default:
+			fail("window/"+kind+"/registry-differs", "registry entry found %d times, expected %v: %s", n, want, k)
+		}
+		bad = true
+	}
+	// HasLocalFeatureRemoteBinding for every pair that was ever bound
+	for _, k := range keys {
+		en, ok := universe[k]
+		if !ok || en.kind != "bind" {
+			continue
+		}
+		_, want := ref[k]
+		c.Events(1)
+		if g := w.Local.BindingManager().HasLocalFeatureRemoteBinding(srv[en.srv].Address(), caddr(en)); g != want && !bad {
+			fail("window/"+kind+"/has-binding-differs", "HasLocalFeatureRemoteBinding reports %v, expected %v: %s", g, want, k)
+			bad = true
+		}
+	}
+
+	// ---- (4) authorisation follows the acknowledged requests: a peer that unbound is refused, one that bound (or kept its binding) is accepted
+	for _, k := range keys {
+		en, ok := universe[k]
+		if !ok || en.kind != "bind" || hit(en) {
+			continue
+		}
+		p := peers[en.peer]
+		_, want := ref[k]
+		p.Tap.Take()
+		mc := p.Send(model.CmdClassifierTypeWrite, caddr(en), srv[en.srv].Address(), true, nil, rig.CmdFor(wfn[en.srv].Fn, reflect.New(wfn[en.srv].T).Interface()))
+		res := rig.Classify(p.Tap.Take(), mc)
+		c.Events(1)
+		trace = append(trace, fmt.Sprintf("peer%d writes %s from %s/%d to local server %d (binding expected: %v): %s", en.peer, wfn[en.srv].Fn, c06Key(en.ent), en.srv+1, en.srv, want, res))
+		switch {
+		case want && (res.Success != 1 || res.Errors != 0 || len(res.All) != 1):
+			sig := "write-over-surviving-binding-not-accepted"
+			if granted[k] == "bind" {
+				sig = "write-over-binding-granted-during-teardown-not-accepted"
+			}
+			fail("window/"+kind+"/"+sig, "%s: %s", k, res)
+		case !want && (res.Errors != 1 || res.Success != 0 || len(res.All) != 1):
+			fail("window/"+kind+"/write-after-acknowledged-unbind-not-refused", "%s: the unbind was acknowledged during the teardown of peer%d, the write afterwards must receive exactly one error result: %s", k, x, res)
+		}
+	}
+	for _, p := range peers {
+		if p != peers[x] || kind != "disconnect" {
+			p.Tap.Take()
+		}
+	}
+
+	// ---- (5) a data change of every server feature notifies exactly the subscribers of the reference
+	for s := range srv {
+		fn := c06FnsOf(c10SrvTypes[s])[0]
+		srv[s].SetData(fn.Fn, reflect.New(fn.T).Interface())
+		gotN := map[string]int{}
+		for pi, p := range peers {
+			if pi == x && kind == "disconnect" {
+				continue // judged below: nothing at all may reach the removed connection
+			}
+			for _, d := range p.Tap.Take() {
+				if d.Header.CmdClassifier != nil && *d.Header.CmdClassifier == model.CmdClassifierTypeNotify && d.Header.AddressSource != nil && d.Header.AddressDestination != nil &&
+					d.Header.AddressSource.String() == srv[s].Address().String() {
+					gotN[fmt.Sprintf("%-4s peer%d client=%s server=%s", "sub", pi, d.Header.AddressDestination.String(), srv[s].Address().String())]++
+				}
+			}
+		}
+		var ks []string
+		for k, en := range universe {
+			if en.kind == "sub" && en.srv == s {
+				ks = append(ks, k)
+			}
+		}
+		for k := range gotN {
+			if _, ok := universe[k]; !ok {
+				ks = append(ks, k)
+			}
+		}
+		sort.Strings(ks)
+		for _, k := range ks {
+			_, want := ref[k]
+			c.Events(1)
+			switch n := gotN[k]; {
+			case want && n != 1:
+				sig := "subscriber-not-notified"
+				if granted[k] == "subscribe" {
+					sig = "subscriber-granted-during-teardown-not-notified"
+				}
+				fail("window/"+kind+"/"+sig, "data of local server %d changed; %d notifications for %s", s, n, k)
+			case !want && n != 0:
+				sig := "notification-for-removed-subscription"
+				if granted[k] == "unsubscribe" {
+					sig = "notification-after-acknowledged-unsubscribe"
+				}
+				fail("window/"+kind+"/"+sig, "data of local server %d changed; %d notifications for %s", s, n, k)
+			}
+		}
+	}
+
+	// ---- (6) nothing reached the removed connection after the removal returned
+	if kind == "disconnect" {
+		c.Events(1)
+		for _, o := range append(outs[x], peers[x].Tap.TakeOut()...) {
+			if o.Seq > seqReturn {
+				fail("window/disconnect/datagram-written-to-removed-connection", "%s", rig.JS(o.D))
+				break
+			}
+		}
+	}
+
+	forced := 0
+	for _, a := range []*c10Actor{sa, ba} {
+		if a.inside.Load() {
+			forced++
+			c.Count("windows_forced:"+a.mgr+"-registry:first-request="+a.ops[0].kind, 1)
+		}
+		if a.at == 0 {
+			c.Count("unaimed_overlaps:requests_released_just_before_the_teardown", 1)
+		}
+		c.Count("requests_of_other_peers_during_teardown", int64(len(a.ops)))
+	}
+	c.Count("windows_forced", int64(forced))
+	c.Count("window_teardown:"+kind, 1)
+	c.Count("entries_of_other_peers_with_the_same_numbers", int64(twins))
+	c.Shape(fmt.Sprintf("window %s sub@%d/%d[%s] bind@%d/%d[%s]", kind, sa.at, nRem["sub"], c10OpList(sa.ops), ba.at, nRem["bind"], c10OpList(ba.ops)))
+	c.NonTrivial(forced > 0)
+	tr := trace
+	if len(tr) > 40 {
+		tr = append(append([]string{}, tr[:10]...), append([]string{"..."}, tr[len(tr)-29:]...)...)
+	}
+	c.Sample(map[string]any{"history": tr, "teardown": kind, "peer": x, "windows_forced": forced, "hold_sub": sa.hold.String(), "hold_bind": ba.hold.String()})
+}
+
+func c10OpList(ops []*c10WinOp) string {
+	var s []string
+	for _, o := range ops {
+		s = append(s, o.kind)
+	}
+	return strings.Join(s, ",")
+}
+
+// ---------------------------------------------------------------------------------------------------
+// reconnect: what was armed for a removed connection must not act on its successor with the same SKI
+
+const c10Long = 30 * time.Minute // "never within a case"; Close() removes the connection and with it the pending approval
+
+func c10Reconnect(c *rig.Ctx) {
+	r := c.Rand
+	w := rig.NewWorld(c.Tag())
+	defer w.Close()
+	mode := "reconnect"
+	if r.Intn(4) == 0 {
+		mode = "approve-at-removal"
+	}
+	T := []time.Duration{25 * time.Millisecond, 50 * time.Millisecond}[r.Intn(2)]
+	if c.Race {
+		T *= 2
+	}
+	types := c10SrvTypes[:3]
+	e := w.AddEntity(model.EntityTypeTypeCEM, []uint{1}, 4*time.Second)
+	var srv []api.FeatureLocalInterface
+	var wfn []rig.FnInfo
+	var capMu sync.Mutex
+	var captured []*api.Message // what the silent approval callbacks were handed
+	for _, t := range types {
+		f := e.GetOrAddFeature(t, model.RoleTypeServer)
+		fns := c06FnsOf(t)
+		for _, fn := range fns {
+			f.AddFunctionType(fn.Fn, true, true)
+		}
+		wfn = append(wfn, fns[len(fns)-1])
+		f.SetWriteApprovalTimeout(T)
+		_ = f.AddWriteApprovalCallback(func(m *api.Message) { // silent
+			capMu.Lock()
+			captured = append(captured, m)
+			capMu.Unlock()
+		})
+		srv = append(srv, f)
+	}
+	capturedFor := func(rd api.DeviceRemoteInterface, mc model.MsgCounterType) *api.Message {
+		capMu.Lock()
+		defer capMu.Unlock()
+		for _, m := range captured {
+			if m != nil && m.DeviceRemote == rd && m.RequestHeader != nil && m.RequestHeader.MsgCounter != nil && *m.RequestHeader.MsgCounter == mc {
+				return m
+			}
+		}
+		return nil
+	}
+	ents := [][]uint{{1}, {1, 1}}
+	var tree []rig.FS
+	tree = append(tree, rig.NMFS)
+	for _, ea := range ents {
+		for i, t := range types {
+			tree = append(tree, rig.FS{Ent: ea, Id: uint(i + 1), Typ: t, Role: model.RoleTypeClient})
+		}
+	}
+	var trace []string
+	fail := func(sig, format string, a ...any) {
+		c.Violate(sig, "%s\n history (last is the failing step):\n   %s", fmt.Sprintf(format, a...), strings.Join(trace, "\n   "))
+		c.Witness(map[string]any{"history": trace})
+	}
+
+	// ---- two identically numbered peers; X binds one or two of the three server features, Y the remaining
+	// one(s) and subscribes to everything
+	xi := r.Intn(2)
+	var peers [2]*rig.Peer
+	for i := 0; i < 2; i++ {
+		peers[i] = w.AddPeer(i)
+	}
+	X, Y := peers[xi], peers[1-xi]
+	perm := r.Perm(3)
+	nX := 1 + r.Intn(2)
+	xs, ys := perm[:nX], perm[nX:]
+	fromX, fromY := ents[r.Intn(2)], ents[r.Intn(2)]
+	const ctr0 = 5000 // both connections of X count from here
+	type pw struct {
+		srv int
+		mc  model.MsgCounterType
+	}
+	// connect = what a peer does after its connection is established; the same calls with the same counters both times
+	connect := func(p *rig.Peer, start uint64, from []uint, ss []int, nWrites int, what string) (writes []pw, ok bool) {
+		p.Ctr = start
+		p.Announce(tree)
+		for _, s := range ss {
+			mc := p.Bind(rig.FA(p.Addr, from, uint(s+1)), srv[s].Address(), types[s])
+			if res := rig.Classify(p.Tap.Take(), mc); res.Success != 1 || res.Errors != 0 {
+				fail(mode+"/"+what+"-binding-not-granted", "%s binds %s/%d -> local server %d: %s", p.Addr, c06Key(from), s+1, s, res)
+				return nil, false
+			}
+		}
+		trace = append(trace, fmt.Sprintf("%s (%s): announces, binds %s/x -> local servers %v", p.Addr, what, c06Key(from), ss))
+		for i := 0; i < nWrites; i++ {
+			s := ss[i%len(ss)]
+			mc := p.Send(model.CmdClassifierTypeWrite, rig.FA(p.Addr, from, uint(s+1)), srv[s].Address(), true, nil, rig.CmdFor(wfn[s].Fn, reflect.New(wfn[s].T).Interface()))
+			writes = append(writes, pw{s, mc})
+			trace = append(trace, fmt.Sprintf("%s (%s): writes %s to local server %d with counter %d: left pending approval", p.Addr, what, wfn[s].Fn, s, mc))
+		}
+		return writes, true
+	}
+	waitCaptured := func(rd api.DeviceRemoteInterface, ws []pw) bool {
+		return rig.WaitFor(10*time.Second, func() bool {
+			for _, wr := range ws {
+				if capturedFor(rd, wr.mc) == nil {
+					return false
+				}
+			}
+			return true
+		})
+	}
+	pendingOf := func(ski string) int {
+		n := 0
+		for _, f := range srv {
+			pm, _ := f.(*spine.FeatureLocal).VerifApprovalState()
+			n += pm[ski]
+		}
+		return n
+	}
+	isLate := func(outs []rig.Out, after int64) *rig.Out {
+		for i, o := range outs {
+			if o.Seq > after {
+				return &outs[i]
+			}
+		}
+		return nil
+	}
+	notifiesFrom := func(dgs []model.DatagramType) int {
+		n := 0
+		for _, d := range dgs {
+			if d.Header.CmdClassifier != nil && *d.Header.CmdClassifier == model.CmdClassifierTypeNotify && d.Header.AddressSource != nil && d.Header.AddressSource.Entity != nil &&
+				d.Header.AddressSource.Feature != nil && *d.Header.AddressSource.Feature != 0 {
+				n++
+			}
+		}
+		return n
+	}
+	dataEvents := func(evs []rig.Ev, ski string) int {
+		n := 0
+		for _, ev := range evs {
+			if ev.P.EventType == api.EventTypeDataChange && ev.P.Ski == ski && ev.P.CmdClassifier != nil && *ev.P.CmdClassifier == model.CmdClassifierTypeWrite {
+				n++
+			}
+		}
+		return n
+	}
+
+	// Y first: bindings, subscriptions to all three server features, no pending write yet
+	if _, ok := connect(Y, 4000, fromY, ys, 0, "only connection"); !ok {
+		return
+	}
+	for s := range srv {
+		mc := Y.Subscribe(rig.FA(Y.Addr, fromY, uint(s+1)), srv[s].Address(), types[s])
+		if res := rig.Classify(Y.Tap.Take(), mc); res.Success != 1 {
+			fail(mode+"/setup-subscription-not-granted", "%s", res)
+			return
+		}
+	}
+	if mode == "approve-at-removal" {
+		for _, s := range xs {
+			srv[s].SetWriteApprovalTimeout(c10Long)
+		}
+	}
+	Y.Tap.Take()
+	var yLog []model.DatagramType // everything Y receives from here on
+	takeY := func() []model.DatagramType {
+		d := Y.Tap.Take()
+		yLog = append(yLog, d...)
+		return d
+	}
+	baseline := runtime.NumGoroutine()
+	nW := 1 + r.Intn(2)
+	t0 := time.Now() // no approval timer is armed before this moment
+	oldWrites, ok := connect(X, ctr0, fromX, xs, nW, "first connection")
+	if !ok {
+		return
+	}
+	oldRD, oldTap := X.RD, X.Tap
+	var yWrites []pw
+	if mode == "reconnect" && r.Intn(2) == 0 { // the other peer has a write pending under the short timeout, with the same counter as X's first write
+		Y.Ctr = uint64(oldWrites[0].mc) - 1
+		s := ys[0]
+		mc := Y.Send(model.CmdClassifierTypeWrite, rig.FA(Y.Addr, fromY, uint(s+1)), srv[s].Address(), true, nil, rig.CmdFor(wfn[s].Fn, reflect.New(wfn[s].T).Interface()))
+		yWrites = append(yWrites, pw{s, mc})
+		trace = append(trace, fmt.Sprintf("%s: writes %s to local server %d with counter %d: left pending approval", Y.Addr, wfn[s].Fn, s, mc))
+	}
+	if !waitCaptured(oldRD, oldWrites) || !waitCaptured(Y.RD, yWrites) {
+		c.Inconclusive("approval callbacks were not invoked within 10s")
+		return
+	}
+	if !rig.WaitQuiet(baseline, 10*time.Second) {
+		c.Inconclusive("goroutines did not finish within the watchdog")
+		return
+	}
+
+	if mode == "approve-at-removal" {
+		// the application approves the first pending write; the approval is held between the lookup of the
+		// pending write and its execution while the connection is removed
+		hooks := rig.InstallHooks()
+		defer hooks.Uninstall()
+		release := hooks.Gate("ApproveOrDenyWrite.afterLookup")
+		wr := oldWrites[r.Intn(len(oldWrites))]
+		msg := capturedFor(oldRD, wr.mc)
+		done := make(chan string, 1)
+		go func() {
+			_, p := rig.Guard(60*time.Second, func() { srv[wr.srv].ApproveOrDenyWrite(msg, model.ErrorType{ErrorNumber: 0}) })
+			done <- p
+		}()
+		if !rig.WaitFor(10*time.Second, func() bool { return hooks.GateWaiting("ApproveOrDenyWrite.afterLookup") >= 1 }) {
+			release()
+			c.Inconclusive("the approval did not reach the hook within 10s")
+			return
+		}
+		trace = append(trace, fmt.Sprintf("application approves write %d; the call is held after the lookup of the pending write", wr.mc))
+		oldTap.Take()
+		Y.Tap.Take()
+		w.Core.Take()
+		w.Local.RemoveRemoteDeviceConnection(X.Ski)
+		seqReturn := rig.Seq()
+		trace = append(trace, "connection of "+X.Addr+" removed; then the approval call continues")
+		release()
+		select {
+		case p := <-done:
+			if p != "" {
+				fail("approve-at-removal/panic", "%s", p)
+				return
+			}
+		case <-time.After(30 * time.Second):
+			c.Inconclusive("ApproveOrDenyWrite did not return within 30s")
+			return
+		}
+		if !rig.WaitQuiet(baseline, 10*time.Second) {
+			c.Inconclusive("goroutines did not finish within the watchdog")
+			return
+		}
+		c.Events(4)
+		if o := isLate(oldTap.TakeOut(), seqReturn); o != nil {
+			fail("approve-at-removal/datagram-written-to-removed-connection", "%s", rig.JS(o.D))
+		}
+		if n := dataEvents(w.Core.Take(), X.Ski); n != 0 {
+			fail("approve-at-removal/write-of-removed-device-executed", "%d data change events for a write of the removed device were published after its removal", n)
+		}
+		if n := notifiesFrom(Y.Tap.Take()); n != 0 {
+			fail("approve-at-removal/write-of-removed-device-executed", "the subscriber %s received %d notifications after the removal of %s although nothing may have changed", Y.Addr, n, X.Addr)
+		}
+		if n := pendingOf(X.Ski); n != 0 {
+			fail("approve-at-removal/pending-approvals-survive", "%d pending approvals for the removed device", n)
+		}
+		c.Count("approvals_held_across_the_removal", 1)
+		c.Shape(fmt.Sprintf("approve-at-removal nX=%d nW=%d", nX, nW))
+		c.NonTrivial(true)
+		c.Sample(map[string]any{"history": trace})
+		return
+	}
+
+	// ---- removal, then the same peer connects again before the approval timeout has passed
+	w.Core.Take()
+	w.Local.RemoveRemoteDeviceConnection(X.Ski)
+	seqReturn := rig.Seq()
+	tReturn := time.Now()
+	trace = append(trace, fmt.Sprintf("connection of %s removed (approval timeout %v)", X.Addr, T))
+	if n := pendingOf(X.Ski); n != 0 {
+		fail("reconnect/pending-approvals-survive", "%d pending approvals for the removed device", n)
+		return
+	}
+	for _, s := range xs {
+		srv[s].SetWriteApprovalTimeout(c10Long) // quiescent point: only writes received from now on are affected
+	}
+	X.Tap = &rig.Tap{}
+	w.Local.SetupRemoteDevice(X.Ski, X.Tap)
+	X.RD = w.Local.RemoteDeviceForSki(X.Ski)
+	newWrites, ok := connect(X, ctr0, fromX, xs, nW, "second connection, same SKI")
+	if !ok {
+		return
+	}
+	for i := range newWrites {
+		if newWrites[i] != oldWrites[i] {
+			c.Inconclusive("harness: the second connection did not reproduce the counters of the first")
+			return
+		}
+	}
+	if !waitCaptured(X.RD, newWrites) {
+		c.Inconclusive("approval callbacks were not invoked within 10s")
+		return
+	}
+	inTime := time.Since(t0) < T // evidence only: timers never fire early, so the old timers (if they still exist) will meet the new entries
+	if n := pendingOf(X.Ski); n != nW {
+		// the new timeout is far away, so only something that was armed for the old connection can have removed an entry
+		fail("reconnect/pending-approval-of-new-connection-lost", "%d writes of the new connection are waiting for approval, the stack holds %d pending approvals for %s", nW, n, X.Ski)
+	}
+
+	// ---- observe until 5 x the timeout after the removal returned (and the other peer's timer has fired)
+	settled := rig.WaitFor(20*time.Second, func() bool { return pendingOf(Y.Ski) == 0 && time.Since(tReturn) >= 5*T })
+	quiet := rig.WaitQuiet(baseline, 10*time.Second)
+	if !settled || !quiet {
+		c.Inconclusive("timers did not fire / goroutines did not finish within the watchdog (settled=%v quiet=%v)", settled, quiet)
+		return
+	}
+	c.Events(3)
+	oldOuts := oldTap.TakeOut()
+	if o := isLate(oldOuts, seqReturn); o != nil {
+		what := "datagram"
+		if len(o.D.Payload.Cmd) > 0 && o.D.Payload.Cmd[0].ResultData != nil {
+			what = "result"
+		}
+		fail("reconnect/"+what+"-written-to-removed-connection", "written to the OLD connection of %s after RemoveRemoteDeviceConnection had returned (observed until %v after the removal): %s", X.Addr, 5*T, rig.JS(o.D))
+	}
+	if n := pendingOf(X.Ski); n != nW {
+		fail("reconnect/pending-approval-of-new-connection-lost", "%d writes of the new connection are waiting for approval (timeout %v); %v after the removal of the old connection the stack holds %d pending approvals for %s",
+			nW, c10Long, 5*T, n, X.Ski)
+	}
+	newDs := X.Tap.Take()
+	for _, wr := range newWrites {
+		if res := rig.Classify(newDs, wr.mc); len(res.All) != 0 {
+			fail("reconnect/write-of-new-connection-answered-while-pending", "write %d of the new connection is waiting for approval but received %s: %s", wr.mc, res, rig.JS(res.All[0]))
+		}
+	}
+	// ---- the application decides the writes of the new connection
+	w.Core.Take()
+	takeY()
+	approvedN := 0
+	for _, wr := range newWrites {
+		deny := r.Intn(4) == 0
+		verdict := model.ErrorType{ErrorNumber: 0}
+		if deny {
+			verdict = model.ErrorType{ErrorNumber: 7, Description: util.Ptr(model.DescriptionType("denied"))}
+		} else {
+			approvedN++
+		}
+		msg := capturedFor(X.RD, wr.mc)
+		okA, p := rig.Guard(30*time.Second, func() { srv[wr.srv].ApproveOrDenyWrite(msg, verdict) })
+		if p != "" || !okA {
+			fail("reconnect/approval-panic-or-stuck", "%s", p)
+			return
+		}
+		res := rig.Classify(X.Tap.Take(), wr.mc)
+		c.Events(1)
+		trace = append(trace, fmt.Sprintf("application decides write %d of the new connection (deny=%v): %s", wr.mc, deny, res))
+		if len(res.All) != 1 || (deny && res.Errors != 1) || (!deny && res.Success != 1) {
+			fail("reconnect/verdict-for-write-of-new-connection-not-carried-out", "write %d of the new connection, verdict deny=%v: %s", wr.mc, deny, res)
+		}
+	}
+	if !rig.WaitQuiet(baseline, 10*time.Second) {
+		c.Inconclusive("goroutines did not finish within the watchdog")
+		return
+	}
+	c.Events(3)
+	if n := dataEvents(w.Core.Take(), X.Ski); n != approvedN && !c.Failed() {
+		fail("reconnect/verdict-for-write-of-new-connection-not-carried-out", "%d writes approved, %d data change events", approvedN, n)
+	}
+	if n := notifiesFrom(takeY()); n != approvedN && !c.Failed() {
+		fail("reconnect/verdict-for-write-of-new-connection-not-carried-out", "%d writes approved, the subscriber %s received %d notifications", approvedN, Y.Addr, n)
+	}
+	if n := pendingOf(X.Ski); n != 0 {
+		fail("reconnect/decided-write-still-pending", "%d pending approvals left for %s", n, X.Ski)
+	}
+	if o := isLate(oldTap.TakeOut(), seqReturn); o != nil && !c.Failed() {
+		fail("reconnect/datagram-written-to-removed-connection", "%s", rig.JS(o.D))
+	}
+	// the other peer: its write timed out exactly once, its registry entries are untouched
+	takeY()
+	for _, wr := range yWrites {
+		c.Events(1)
+		if res := rig.Classify(yLog, wr.mc); res.Errors != 1 || res.Success != 0 || len(res.All) != 1 {
+			fail("reconnect/pending-approval-of-other-peer-lost", "write %d of %s (same counter as the first write of %s) must receive exactly one result, the approval timeout; got %s", wr.mc, Y.Addr, X.Addr, res)
+		}
+	}
+	if n := len(w.Local.BindingManager().Bindings(Y.RD)); n != len(ys) {
+		fail("reconnect/binding-of-other-peer-lost", "%s has %d bindings, expected %d", Y.Addr, n, len(ys))
+	}
+	if n := len(w.Local.SubscriptionManager().Subscriptions(Y.RD)); n != len(srv) {
+		fail("reconnect/subscription-of-other-peer-lost", "%s has %d subscriptions, expected %d", Y.Addr, n, len(srv))
+	}
+	if n := len(w.Local.BindingManager().Bindings(X.RD)); n != len(xs) {
+		fail("reconnect/binding-of-new-connection-lost", "%s has %d bindings on its new connection, expected %d", X.Addr, n, len(xs))
+	}
+	if inTime {
+		c.Count("reconnects_with_same_counter_pending_before_old_timeout", 1)
+	}
+	c.Count("reconnects", 1)
+	c.Shape(fmt.Sprintf("reconnect T=%v nX=%d nW=%d yW=%d inTime=%v", T, nX, nW, len(yWrites), inTime))
+	c.NonTrivial(inTime)
+	c.Sample(map[string]any{"history": trace, "timeout": T.String(), "new_writes_pending_before_old_timeout": inTime, "horizon": (5 * T).String()})
 }
